@@ -190,7 +190,8 @@ def build(cls, geom, path, kappa, pixel=None):
     if cls == "Polyline":
         return m.current.Polyline(vertices=sv, current=2, **kw)
     if cls == "Dipole":
-        return m.misc.Dipole(moment=(0, 0, 1), **kw)
+        # the moment is a vector of the object's frame (lattice vector of the scenario; (0, 0, 1) where the scenario names none)
+        return m.misc.Dipole(moment=(np.array(verts[0], dtype=float) * 0.5 if len(verts) else (0, 0, 1)), **kw)
     if cls == "CustomSource":
         return m.misc.CustomSource(**kw)
     if cls == "Sensor":
